@@ -132,9 +132,13 @@ def reduce_1d(reduce_func_name: str, arr, skipna: bool = True, n_threads: int = 
             _nb_reduce(reduce_func=reduce_func, arr=arr, **kwargs)
         )
     else:
+        # empty chunks (more threads than elements) have nothing to reduce
+        arr_chunks = [c for c in np.array_split(arr, n_threads) if len(c)]
+        if not arr_chunks:
+            arr_chunks = [arr]
         chunks = parallel_map(
             lambda a: _nb_reduce(reduce_func=reduce_func, arr=a, **kwargs),
-            list(zip(np.array_split(arr, n_threads))),
+            list(zip(arr_chunks)),
         )
         chunks = output_converter(chunks)
         result = reduce_1d(chunk_reduction, chunks, skipna=skipna, n_threads=1)
